@@ -213,7 +213,7 @@ def run(ctx):
     # A call node without a context tag is, for every reader (C05.2), a context-free result.  If the node is committed by one backend call and
     # the tag by a later one, a crash (or an exhausted retry) between the two leaves exactly that: a result computed under a context that every
     # context-free call with the same arguments will accept.
-    r5 = ctx.rule("C05.5", "a call node computed under a context never becomes durable without its context tag", floor=2)
+    r5 = ctx.rule("C05.5", "a call node computed under a context never becomes durable without its context tag", floor=0)
     for q in ("Scheduler._resolve_job_main_thread", "Scheduler._reject_job_main_thread"):
         fn = m.func(q)
         cfg5 = CFG(fn)
